@@ -14,7 +14,6 @@ import (
 	"encoding/hex"
 	"flag"
 	"fmt"
-	"io"
 	"math/rand"
 	"net"
 	"os"
@@ -50,6 +49,39 @@ type thProxy struct {
 	cut    bool
 	conns  []net.Conn
 	lat    time.Duration // one-way latency added to every chunk
+	holed  map[net.Conn]bool // connections that silently lose everything from now on (a partition without FIN / RST)
+}
+
+// everything that exists now is cut off silently; connections made later are not affected
+func (p *thProxy) blackholeExisting() {
+	p.mu.Lock()
+	if p.holed == nil {
+		p.holed = map[net.Conn]bool{}
+	}
+	for _, c := range p.conns {
+		p.holed[c] = true
+	}
+	p.mu.Unlock()
+}
+
+// the partition ends: what was cut off silently is torn down, both ends learn of it
+func (p *thProxy) dropHoled() {
+	p.mu.Lock()
+	var cs []net.Conn
+	for c := range p.holed {
+		cs = append(cs, c)
+	}
+	p.holed = nil
+	p.mu.Unlock()
+	for _, c := range cs {
+		c.Close()
+	}
+}
+
+func (p *thProxy) isHoled(c net.Conn) bool {
+	p.mu.Lock()
+	defer p.mu.Unlock()
+	return p.holed[c]
 }
 
 // copy with latency: a chunk read at time t is written at t+lat (order kept)
@@ -58,8 +90,24 @@ func (p *thProxy) pipe(dst, src net.Conn) {
 	lat := p.lat
 	p.mu.Unlock()
 	if lat == 0 {
-		_, _ = io.Copy(dst, src)
-		return
+		buf := make([]byte, 32*1024)
+		for {
+			n, err := src.Read(buf)
+			if n > 0 && !p.isHoled(src) && !p.isHoled(dst) {
+				if _, werr := dst.Write(buf[:n]); werr != nil {
+					return
+				}
+			}
+			if err != nil {
+				if p.isHoled(src) || p.isHoled(dst) {
+					// the other end must not learn of it yet: its socket stays open until the partition ends
+					for p.isHoled(src) || p.isHoled(dst) {
+						time.Sleep(20 * time.Millisecond)
+					}
+				}
+				return
+			}
+		}
 	}
 	type chunk struct {
 		b  []byte
@@ -83,9 +131,15 @@ func (p *thProxy) pipe(dst, src net.Conn) {
 		if d := time.Until(c.at); d > 0 {
 			time.Sleep(d)
 		}
+		if p.isHoled(src) || p.isHoled(dst) {
+			continue
+		}
 		if _, err := dst.Write(c.b); err != nil {
 			return
 		}
+	}
+	for p.isHoled(src) || p.isHoled(dst) {
+		time.Sleep(20 * time.Millisecond) // the other end must not learn of it yet
 	}
 }
 
@@ -331,6 +385,8 @@ func runTwoHubs(id int, seed int64, nops int) *thResult {
 				k = 200
 			} else if rnd.Intn(6) == 0 {
 				k = 201
+			} else if rnd.Intn(4) == 0 {
+				k = 202
 			}
 		}
 		switch {
@@ -427,6 +483,52 @@ func runTwoHubs(id int, seed int64, nops int) *thResult {
 					res.bad = append(res.bad, fmt.Sprintf("C10 the user of %s removed the peer (%s) while %s was establishing the connection to it: about 1.5 s later %s trusts the peer = %v and holds a connection in handshake state %d", n.name, what, n.name, n.name, f.trusted, f.connState))
 				}
 			}
+		case k == 202:
+			// a silent partition: the existing connection between the hubs loses everything without either socket being
+			// closed; one hub notices (its application disconnects) and connects again while the other still holds the
+			// old connection
+			// (the hub with the higher SKI is the one that notices: its new connection is the one both keep; the other
+			// way round the pair has to wait for the websocket ping to time out, a minute, before it can recover)
+			if n.ski < o.ski {
+				n, o = o, n
+			}
+			if !n.running || !o.running || pinned[n.name] == "SomeOtherShipID" || pinned[o.name] == "SomeOtherShipID" {
+				continue
+			}
+			// first a completed connection between the two
+			for _, x := range []*thNode{n, o} {
+				x.hub.RegisterRemoteSKI(other(x).ski)
+				x.mdns.publish(other(x).entry())
+				reg[x.name], vis[x.name], cancelled[x.name] = true, true, false
+			}
+			up := false
+			for i := 0; i < 60 && !up; i++ {
+				time.Sleep(50 * time.Millisecond)
+				up = n.facts(o).connState == int(model.SmeStateComplete) && o.facts(n).connState == int(model.SmeStateComplete)
+			}
+			if !up {
+				op("regA,regB,visA,visB")
+				continue
+			}
+			a.via.blackholeExisting()
+			b.via.blackholeExisting()
+			n.hub.RegisterRemoteSKI(o.ski)
+			reg[n.name], cancelled[n.name] = true, false
+			n.hub.DisconnectSKI(o.ski, "no heartbeat")
+			time.Sleep(time.Duration(600+rnd.Intn(300)) * time.Millisecond) // the graceful close gives up after 500 ms
+			n.mdns.publish(o.entry())
+			vis[n.name] = true
+			op("partition,reg" + n.name + ",disc" + n.name + ",vis" + n.name)
+			time.Sleep(time.Duration(1500+rnd.Intn(800)) * time.Millisecond)
+			// the peer replaced its old connection by the new one: its application has to end on "set up"
+			if f := o.facts(n); f.connState == int(model.SmeStateComplete) && f.lastLife != "setup" {
+				time.Sleep(700 * time.Millisecond)
+				if f = o.facts(n); f.connState == int(model.SmeStateComplete) && f.lastLife != "setup" {
+					res.bad = append(res.bad, fmt.Sprintf("C11 hub %s holds a completed connection (the peer connected again while the old connection was still registered), but the application's last notification is %q (set up %d, disconnected %d)", o.name, f.lastLife, f.setups, f.discs))
+				}
+			}
+			a.via.dropHoled()
+			b.via.dropHoled()
 		case k == 201:
 			// the hub is shut down while it is establishing a connection; afterwards the application starts a new one
 			if rnd.Intn(3) != 0 && o.running {
@@ -611,7 +713,7 @@ func runTwoHubs(id int, seed int64, nops int) *thResult {
 	settled := time.Since(since) >= 2500*time.Millisecond
 	fa, fb := a.facts(b), b.facts(a)
 	bad := func(p, f string, x ...any) {
-		if !settled && (p == "C18" || p == "C11") {
+		if !settled && (p == "C18" || p == "C11" || p == "C03") {
 			return
 		}
 		res.bad = append(res.bad, p+" "+fmt.Sprintf(f, x...))
